@@ -110,15 +110,19 @@ class MBytes(object):
 class GenList(object):
     """A generator evaluated eagerly (laziness not modelled: A-GEN)."""
 
-    def __init__(self, items):
+    def __init__(self, items, pending=None):
         self.items = list(items)
         self.pos = 0
+        self.pending = pending      # exception the generator body ended with (raised after the last yielded item)
 
     def __iter__(self):
         return self
 
     def __next__(self):
         if self.pos >= len(self.items):
+            if self.pending is not None:
+                e, self.pending = self.pending, None
+                raise e
             raise StopIteration
         v = self.items[self.pos]
         self.pos += 1
@@ -761,6 +765,9 @@ def call_function(ctx, fn, args, kwargs, defcls=None):
                 it.exec_block(node.body)
             except _Return:
                 pass
+            except PyExc as e:
+                # a generator raises where the consumer reaches that point, not at the call
+                return GenList(frame.yields, pending=e)
             return GenList(frame.yields)
         try:
             it.exec_block(node.body)
